@@ -92,6 +92,12 @@ type LoopLet struct {
 	Expr SExpr
 }
 
+type GhostSet struct {
+	Name string
+	Expr SExpr
+	Text string
+}
+
 type LemmaStep struct {
 	Kind    string // call | assert | assume(not allowed) | use
 	Results []string
@@ -132,6 +138,7 @@ type Contract struct {
 	Irrelevant []string // captured variables of closures whose assignments are ghost-irrelevant (logging only)
 	Mutates  []string   // slice parameters modified in place; post(p) is their final value
 	LoopLets []LoopLet
+	GhostSets []GhostSet // ghost assignments executed at the function's exit (and assumed at call sites)
 }
 
 func (c *Contract) Key() string {
@@ -620,7 +627,7 @@ var clauseKeywords = map[string]bool{
 	"decreases": true, "trusted": true, "pure": true, "pred": true, "fn": true,
 	"lemma": true, "axiom": true, "call": true, "assert": true, "abstracts": true,
 	"props": true, "uses": true, "noinline": true, "ghost": true, "induct": true,
-	"package": true, "recfn": true, "opred": true, "bounded": true, "use": true, "pattern": true, "irrelevant": true, "mutates": true,
+	"package": true, "recfn": true, "opred": true, "bounded": true, "use": true, "pattern": true, "irrelevant": true, "mutates": true, "ghostset": true,
 }
 
 func firstWord(s string) string {
@@ -790,6 +797,16 @@ func parseSpecFile(path, pkgPath string) (*SpecFile, error) {
 				cur.Props = append(cur.Props, strings.Fields(strings.ReplaceAll(rest, ",", " "))...)
 			case "uses", "use":
 				cur.Uses = append(cur.Uses, strings.Fields(strings.ReplaceAll(rest, ",", " "))...)
+			case "ghostset":
+				k := strings.Index(rest, ":=")
+				if k < 0 {
+					return nil, fail(i, "ghostset needs :=")
+				}
+				e, err := parseSpecExpr(rest[k+2:])
+				if err != nil {
+					return nil, fail(i, "%v", err)
+				}
+				cur.GhostSets = append(cur.GhostSets, GhostSet{strings.TrimSpace(rest[:k]), e, rest})
 			case "irrelevant":
 				cur.Irrelevant = append(cur.Irrelevant, strings.Fields(strings.ReplaceAll(rest, ",", " "))...)
 			case "mutates":
